@@ -22,6 +22,47 @@ def shape_of(frame, desc, deepest, cut):
     return (desc, deepest, last, "cut" if cut else "full")
 
 
+def build_cases(rng, work, n_frames, few_cuts):
+    """-> (probe cases, meta): batches of frames and their truncations, each read by a random no-raise read sequence and written back"""
+    items = []     # (frame, desc, cut)
+    for _ in range(n_frames):
+        fr, desc = pkt.rand_frame(rng)
+        items.append((fr, desc, False))
+        cuts = list(range(len(fr)))
+        if few_cuts:
+            cuts = rng.sample(cuts, min(len(cuts), 14))
+        for c in cuts:
+            items.append((fr[:c], desc, True))
+    rng.shuffle(items)
+    batches = [items[i:i + BATCH] for i in range(0, len(items), BATCH)]
+    cases = []
+    meta = {}
+    for bi, batch in enumerate(batches):
+        inp = os.path.join(work, "in%d.pcap" % bi)
+        # wire length >= captured length (snapped records): the record header must survive reads as well
+        recs = [(1000 + k, 7 * k, fr, None, len(fr) + rng.choice([0, 0, 1, 40, 1454, 70000])) for k, (fr, _, _) in enumerate(batch)]
+        snap = rng.choice([65535, 262144, max(len(fr) for fr, _, _ in batch)])
+        with open(inp, "wb") as f:
+            f.write(pkt.pcap_file(recs, snaplen=snap, magic=rng.choice([pkt.MAGIC_US, pkt.MAGIC_NS])))
+        outp = os.path.join(work, "out%d.pcap" % bi)
+        rawp = os.path.join(work, "raw%d.bin" % bi)
+        lines = ["let __o = [];", "let f = pcap_open(%s);" % lit(inp), "let o = pcap_open(%s, \"w\");" % lit(outp),
+                 "let rw = open(%s, \"w\");" % lit(rawp), "let ps = pcap_read_all(f);", "push(__o, len(ps));"]
+        deep = []
+        for k, (fr, desc, cut) in enumerate(batch):
+            v = "p%d" % k
+            lines.append("let %s = ps[%d];" % (v, k))
+            rl, deepest = pktscript.random_reads(rng, fr, v, rng.randint(0, 12))
+            deep.append(deepest)
+            lines += rl
+            lines.append("pcap_write(o, %s); write(rw, %s); push(__o, %d);" % (v, v, k))
+        lines.append("flush(rw);")
+        cid = "b%d" % bi
+        cases.append(Case(cid, "\n".join(lines), {"globals": "__o", "steps": 2000000}))
+        meta[cid] = (batch, recs, outp, rawp, deep)
+    return cases, meta
+
+
 def run(chk):
     rng = chk.rng
     quick = chk.tier == "quick"
@@ -35,42 +76,7 @@ def run(chk):
     chk.floor = 3000
     work = core.scratch_dir()
     try:
-        n_frames = 250 if quick else 6000
-        items = []     # (frame, desc, cut)
-        for _ in range(n_frames):
-            fr, desc = pkt.rand_frame(rng)
-            items.append((fr, desc, False))
-            cuts = list(range(len(fr)))
-            if quick:
-                cuts = rng.sample(cuts, min(len(cuts), 14))
-            for c in cuts:
-                items.append((fr[:c], desc, True))
-        rng.shuffle(items)
-        batches = [items[i:i + BATCH] for i in range(0, len(items), BATCH)]
-        cases = []
-        meta = {}
-        for bi, batch in enumerate(batches):
-            inp = os.path.join(work, "in%d.pcap" % bi)
-            recs = [(1000 + k, 7 * k, fr) for k, (fr, _, _) in enumerate(batch)]
-            snap = rng.choice([65535, 262144, max(len(fr) for fr, _, _ in batch)])
-            with open(inp, "wb") as f:
-                f.write(pkt.pcap_file(recs, snaplen=snap, magic=rng.choice([pkt.MAGIC_US, pkt.MAGIC_NS])))
-            outp = os.path.join(work, "out%d.pcap" % bi)
-            rawp = os.path.join(work, "raw%d.bin" % bi)
-            lines = ["let __o = [];", "let f = pcap_open(%s);" % lit(inp), "let o = pcap_open(%s, \"w\");" % lit(outp),
-                     "let rw = open(%s, \"w\");" % lit(rawp), "let ps = pcap_read_all(f);", "push(__o, len(ps));"]
-            deep = []
-            for k, (fr, desc, cut) in enumerate(batch):
-                v = "p%d" % k
-                lines.append("let %s = ps[%d];" % (v, k))
-                rl, deepest = pktscript.random_reads(rng, fr, v, rng.randint(0, 12))
-                deep.append(deepest)
-                lines += rl
-                lines.append("pcap_write(o, %s); write(rw, %s); push(__o, %d);" % (v, v, k))
-            lines.append("flush(rw);")
-            cid = "b%d" % bi
-            cases.append(Case(cid, "\n".join(lines), {"globals": "__o", "steps": 2000000}))
-            meta[cid] = (batch, recs, outp, rawp, deep)
+        cases, meta = build_cases(rng, work, 250 if quick else 6000, quick)
         res = core.run_cases(cases)
         for cid, (batch, recs, outp, rawp, deep) in meta.items():
             r = res.get(cid)
@@ -108,9 +114,9 @@ def run(chk):
                 chk.observed(shape_of(fr, desc, deep[k], cut))
                 if len(chk.samples) < 8 and k == 0:
                     chk.sample({"frame_hex": fr.hex()[:120], "layers": [l[0] for l in pkt.decode(fr)], "deepest_touched": deep[k]})
-                exp_rec = (want[0], want[1], len(fr), len(fr), fr)
+                exp_rec = (want[0], want[1], len(fr), want[4], fr)
                 got = out_recs[k] if k < len(out_recs) else None
-                exp_raw = pkt.pcap_record(want[0], want[1], fr)
+                exp_raw = pkt.pcap_record(want[0], want[1], fr, None, want[4])
                 got_raw = raw[pos:pos + len(exp_raw)] if k == 0 or True else None
                 bad = None
                 if got != exp_rec:
